@@ -649,10 +649,15 @@ fn build_lists<'a>(
 
 fn list_item<'a>(s: &'a SimpleTerm<'a>, d: &'a PrettifiableDataset) -> Option<&'a SimpleTerm<'a>> {
     let mut ret = None;
+    let mut rest_seen = false;
     for q in d.quads_matching([s], Any, Any, Any) {
         let q = q.unwrap();
         if rdf::rest == q.p() {
-            continue;
+            if rest_seen {
+                // more than one rdf:rest: not a well-formed list node
+                return None;
+            }
+            rest_seen = true;
         } else if rdf::first == q.p() && ret.is_none() {
             ret = Some(q.o());
         } else {
